@@ -29,10 +29,10 @@ DesignsThorough == DesignsQuick \cup {
 DesignsEmit == {
     D(<<"fuel", "plenum">>, <<5, 4>>, 3),
     D(<<"fuelb", "bigfuel">>, <<5, 5>>, 2) }
-DesignsDeep == { D(<<"fuel", "plenum">>, <<4, 4>>, 16), D(<<"shield", "fuel", "plenum">>, <<4, 2, 4>>, 8) }
+DesignsDeep == { D(<<"fuel", "plenum">>, <<4, 4>>, 16) }
 \* static cases: target-component choice and link detection over many block designs (one call each)
 DesignsCases == {D(<<t1, t2>>, <<4, 4>>, 4) : t1, t2 \in DOMAIN BT} \cup {D(<<t>>, <<4>>, 4) : t \in DOMAIN BT}
-DesignsCasesQuick == {D(<<t1, t2>>, <<4, 4>>, 4) : t1 \in {"fuel", "shield", "liner"}, t2 \in DOMAIN BT} \cup {D(<<t>>, <<4>>, 4) : t \in DOMAIN BT}
+DesignsCasesQuick == {D(<<t1, t2>>, <<4, 4>>, 4) : t1 \in {"fuel", "shield", "liner", "wires"}, t2 \in DOMAIN BT} \cup {D(<<t>>, <<4>>, 4) : t \in DOMAIN BT}
 TriplesQuick == {<<0, 1, 2>>, <<2, 0, 1>>}
 TriplesThorough == {<<0, 1, 2>>, <<2, 0, 1>>, <<1, 1, 0>>, <<2, 1, 0>>}
 TriplesEmit == {<<0, 1, 2>>}
